@@ -137,7 +137,7 @@ def run_case(ctx, name, params):
                 for i_, (lb, ub) in enumerate(setup["bounds"]):
                     prm_.append({"name": "x%d" % i_, "bounds": [lb, ub], "precision": (ub - lb) / k_})
                 extra_["params"] = prm_
-                fail_rate = max(fail_rate, 0.2)
+                fail_rate = max(fail_rate, r.choice([0.2, 0.35]))
                 ctx.count("runs_with_coarse_precision_and_failures")
             if algo == "nsga2" and "params" not in extra_ and r.random() < 0.3:
                 # a start population supplied by the user (public attribute `generator`), some designs listed more than once: the
